@@ -163,7 +163,13 @@ def merge(prop, tier, seed, jobs, meta, t_start, build_info):
             inconclusive.append("job %s hit its %ds watchdog" % (j.name, j.timeout))
         if r is None:
             if not j.timed_out:
-                inconclusive.append("job %s produced no report (exit %s): %s" % (j.name, j.rc, j.output[-600:].replace("\n", " | ")))
+                msg = "job %s produced no report (exit %s): %s" % (j.name, j.rc, j.output[-600:].replace("\n", " | "))
+                if meta.get("abort_is_violation") and j.rc in (-6, -11, -4, -7, -8):  # ABRT SEGV ILL BUS FPE (a SIGKILL is the OOM killer or an operator: inconclusive)
+                    # killed by a signal (SIGABRT from a panic inside a destructor, a double panic, ...): the library took the process down
+                    violations.append({"property": prop, "rule": "no-abort", "class": "process-aborted", "detail": msg, "replay_args": j.argv[1:], "trace": {}, "job": j.name, "bin": j.argv[0]})
+                    vcount += 1
+                else:
+                    inconclusive.append(msg)
             continue
         evaluations += r.get("evaluations", 0)
         if r.get("distinct") is not None:
@@ -201,7 +207,7 @@ def merge(prop, tier, seed, jobs, meta, t_start, build_info):
         # a driver exit code other than 0/1/3 is a crash of the harness or an abort inside the library
         if j.rc not in (0, 1, 3) and not j.timed_out:
             msg = "job %s exited with %s: %s" % (j.name, j.rc, j.output[-400:].replace("\n", " | "))
-            if meta.get("abort_is_violation") and j.rc is not None and j.rc < 0:
+            if meta.get("abort_is_violation") and j.rc in (-6, -11, -4, -7, -8):  # ABRT SEGV ILL BUS FPE (a SIGKILL is the OOM killer or an operator: inconclusive)
                 violations.append({"property": prop, "rule": "no-abort", "class": "process-aborted", "detail": msg, "replay_args": j.argv[1:], "trace": {}, "job": j.name, "bin": j.argv[0]})
                 vcount += 1
             else:
